@@ -13,13 +13,13 @@
    theory (LegalConv: a safe move's target is in `allowed`, a pinned man that moves safely stays on its pin line, double check
    leaves no safe non-king move), per block CompletePieces, CompletePawns, ConvEp, ConvKing, CompleteCastle, assembled in
    MovegenComplete; the Black frame by mirror symmetry of the rules (RulesMirror, SetTurn).
-   The statement `movegen_exact_statement` below (over the executable domain test in_D, as a Permutation of lists) differs from the
-   proved theorem only in (a) using in_D instead of the invariant (that in_D implies inv_b and ep_ok_b is evaluated, not proved) and
-   (b) nothing else: the Permutation form is C01_movegen_exact_as_permutation (the rules list no move twice: PerftRules.legal_nodup).
+   The statement `movegen_exact_statement` below (over the executable domain test in_D of DESIGN section 4, as a Permutation of
+   lists) is proved too: C01_movegen_exact_on_D (in_D implies inv_b and ep_ok_b: DomainInv.v; the rules list no move twice:
+   PerftRules.legal_nodup).
    The tie of the model to the Rust generator is the correspondence run against the executable specification. *)
 From Coq Require Import NArith ZArith List Bool Permutation String.
 From Rawr Require Import Consts Bits Magic Position MoveGen MakeMove MakeStages Fen Uci Rules Abs MagicFacts ShiftFacts AbsFacts MakeFacts GenSane GenNoDup NoKingCapture
-                         Closure EpRetro LegalKing LegalCastle LegalEp LegalBlocks GenLegal MovegenSound ConvKing MovegenComplete PerftRules.
+                         Closure EpRetro LegalKing LegalCastle LegalEp LegalBlocks GenLegal MovegenSound ConvKing MovegenComplete PerftRules DomainInv.
 Import ListNotations.
 Local Open Scope N_scope.
 
@@ -144,6 +144,16 @@ Qed.
 Theorem C01_executable_premises_sound : forall p, inv_b p = true -> Inv0 p.
 Proof. intros p H. exact (Inv_Inv0 p (inv_b_sound p H)). Qed.
 
+(* ---- the statement at full strength, over the executable domain test in_D of DESIGN section 4: in_D implies the invariant and
+   the en-passant consistency (DomainInv.v: validate's tests, consistent boards, rights geometry, ep_retro) *)
+Theorem C01_domain_implies_premises : forall p, in_D p = true -> inv_b p = true /\ ep_ok_b p = true.
+Proof. intros p H. split; [exact (in_D_inv p H)|exact (in_D_ep_ok p H)]. Qed.
+Theorem C01_movegen_exact_on_D : movegen_exact_statement.
+Proof.
+  intros p H. destruct (C01_domain_implies_premises p H) as (H1 & H2).
+  exact (C01_movegen_exact_as_permutation p (C01_executable_premises_sound p H1) H2).
+Qed.
+
 (* ---- completeness, first block: a king step that does not leave the king attacked is generated (and conversely) *)
 Theorem C01_king_steps_complete : forall u p b, Inv0 p ->
   let k := lsb (N.land (kings p) (c_us p)) in
@@ -215,3 +225,5 @@ Print Assumptions C01_movegen_complete.
 Print Assumptions C01_movegen_exact.
 Print Assumptions C01_movegen_exact_as_permutation.
 Print Assumptions C01_executable_premises_sound.
+Print Assumptions C01_domain_implies_premises.
+Print Assumptions C01_movegen_exact_on_D.
